@@ -149,7 +149,13 @@ func init() {
 			return nil
 		},
 		H + "Tag": func(e *Engine, fn *ssa.Function, a []Val) Val {
-			e.path.Tags = append(e.path.Tags, e.strArg(a[1]))
+			t := e.strArg(a[1])
+			for _, x := range e.path.Tags {
+				if x == t {
+					return nil
+				}
+			}
+			e.path.Tags = append(e.path.Tags, t)
 			return nil
 		},
 		H + "Reach": func(e *Engine, fn *ssa.Function, a []Val) Val {
